@@ -72,9 +72,7 @@ def directives(ctx, vecs):
     hdr = [v for v in vecs if v["t"] == "hdr"]
     short = [v for v in hdr if len(v["hdr"]) <= 2]
     long_ = [v for v in hdr if len(v["hdr"]) > 2]
-    if quick:
-        rnd.shuffle(long_)
-        long_ = long_[:1400]
+    rnd.shuffle(long_)
     for v in short:
         for dser in ([74, 67] if quick else MIME):
             ds.append({"t": "hdr", "hdr": v["hdr"], "dser": dser, "seed": seed(), "n": 2})
@@ -83,14 +81,18 @@ def directives(ctx, vecs):
     for v in vecs:
         if v["t"] == "rt":
             for dser in ([74, 67] if quick else MIME):
-                ds.append({"t": "rt", "f": v["f"], "c": v["c"], "dser": dser, "seed": seed(), "n": 3 if quick else 10})
+                ds.append({"t": "rt", "f": v["f"], "c": v["c"], "dser": dser, "seed": seed(), "n": 6 if quick else 16})
             if v["c"] == -1:
                 ds.append({"t": "echo", "f": v["f"], "dser": 74, "seed": seed(), "n": 2 if quick else 6})
         elif v["t"] == "corrupt":
+            if v["mk"] == "nest" and v["ma"] > 4:
+                if not quick:   # 10 MB inputs: seconds per call
+                    ds.append({"t": "corrupt", "f": v["f"], "c": v["c"], "mk": v["mk"], "ma": v["ma"], "dser": 74, "seed": seed(), "n": 1})
+                continue
             ds.append({"t": "corrupt", "f": v["f"], "c": v["c"], "mk": v["mk"], "ma": v["ma"], "dser": 74,
                        "seed": seed(), "n": 2 if quick else 8})
-    for _ in range(16 if quick else 96):
-        ds.append({"t": "random", "dser": 74, "seed": seed(), "n": 150 if quick else 400})
+    for _ in range(200 if quick else 2500):   # small directives: a call that kills the process loses the rest of its directive
+        ds.append({"t": "random", "dser": 74, "seed": seed(), "n": 25})
     return ds
 
 
@@ -139,16 +141,57 @@ def sig(ev):
     return e + ":" + o
 
 
+def reached_format(mark):
+    """Serialization format whose decoder a Load* call on these bytes reaches (label for signatures only)."""
+    if mark.get("api") in ("LoadAsFormat", "MimeLoad", "LoadFromHTTPRequest"):
+        return mark.get("fmt", -1)
+    if not mark.get("hex") and mark.get("n"):      # big input, not written out: the class names the format
+        import re
+        m = re.search(r":f(\d+):", mark.get("cls", ""))
+        return int(m.group(1)) if m else -1
+    try:
+        b = bytes.fromhex(mark.get("hex", ""))
+        if mark.get("api") == "DecompressAndLoad":
+            b = bytes([90]) + b
+        if b and b[0] == 90:
+            import zlib
+            b = zlib.decompressobj(31).decompress(b[1:], 64)
+        return b[0] if b else -1
+    except Exception:
+        return -1
+
+
 def evaluate(ctx, ds):
     binp = build(ctx)
-    res = vlib.drive(ctx, binp, ds, chunk=max(4, (len(ds) + 63) // 64), timeout=600)
+    # Load* on corrupted/random bytes can make a third-party decoder allocate (and touch) gigabytes for a
+    # few input bytes: those directives run with limited parallelism so that the machine is not exhausted.
+    hungry = [i for i, d in enumerate(ds) if d["t"] in ("corrupt", "random", "bytes")]
+    other = [i for i, d in enumerate(ds) if d["t"] not in ("corrupt", "random", "bytes")]
+    res = [None] * len(ds)
+
+    def part(idx, par):
+        if idx:
+            sub = [ds[i] for i in idx]
+            for i, r in zip(idx, vlib.drive(ctx, binp, sub, chunk=max(4, (len(sub) + 63) // 64), timeout=600, par=par)):
+                res[i] = r
+    ctx.pmap(lambda a: part(*a), [(other, 10), (hungry, 6)], par=2)
     events = []
     for i, r in enumerate(res):
         if r["crashed"]:
             d = ds[i]
-            ctx.violation("crash:%s:f%s:c%s:%s" % (d["t"], d.get("f", "-"), d.get("c", "-"), d.get("mk", "-")),
-                          "driver died on directive %s: %s" % (json.dumps(d), r["crashed"][:600]), {"directive": d})
-            continue
+            marks = [e for e in r["events"] if e.get("e") == "try" and "api" in e]
+            if marks:
+                m = marks[-1]
+                one = {"t": "bytes", "api": m["api"], "hex": m["hex"], "target": m["target"], "fmt": m.get("fmt", 0),
+                       "dser": 74, "seed": 1, "n": 1}
+                how = "oom" if "out of memory" in r["crashed"] else "stack" if "stack overflow" in r["crashed"] else "fatal"
+                ctx.violation("died:%s:%s:ser%d:%s:%s" % (how, m["api"], reached_format(m), m["target"], m["cls"].split(":")[0]),
+                              "the process died in %s(%d bytes: %s) [%s] into target %s: %s" % (
+                                  m["api"], m.get("n", 0), m["hex"][:200], m["cls"], m["target"], r["crashed"][:400]),
+                              {"directive": one if m["hex"] or not m.get("n") else d})
+            else:
+                ctx.violation("crash:%s:f%s:c%s:%s" % (d["t"], d.get("f", "-"), d.get("c", "-"), d.get("mk", "-")),
+                              "driver died on directive %s: %s" % (json.dumps(d), r["crashed"][:600]), {"directive": d})
         for e in r["events"]:
             if e.get("e") != "try":
                 e.pop("h", None)
@@ -187,7 +230,7 @@ def run(ctx):
     for kind in ("rt", "req", "resp", "cload", "echo", "total"):
         for e in events:
             if e["e"] == kind and (kind in ("cload", "total") or e.get("dok")):
-                samples.append({k: v for k, v in e.items() if k not in ("blob", "body", "di") and len(str(v)) < 400})
+                samples.append({k: (v if len(str(v)) < 300 else str(v)[:300] + "...") for k, v in e.items() if k != "di"})
                 break
     nv = {t: sum(1 for v in vecs if v["t"] == t) for t in ("hdr", "rt", "corrupt")}
     vlib.finish(ctx, LEVEL, {
@@ -198,14 +241,14 @@ def run(ctx):
                 "a load of an independently encoded body under a generated Content-Type, or one Load* call on corrupted/random bytes. "
                 "Vectors are the states of spec/DsdGen.tla (all header lists up to 3 tokens over the "
                 + ("26" if ctx.tier != "quick" else "17") + "-token alphabet"
-                + (" (length 3: seeded sample of 1400)" if ctx.tier == "quick" else "")
                 + ", all single tokens of the complete token space, 14 formats x 7 compressions, every structured corruption), each "
                 "instantiated with seeded values of the harness schema and 2-4 default formats. distinct = distinct inputs "
                 "(operation, formats, header, value text / bytes); non-trivial = the dump side succeeded, or a load of given bytes",
         "accepted": ok, "events_by_type": by, "model_vectors": nv,
         "model_states": g.distinct, "model_transitions": g.generated, "directives": len(ds),
         "samples": samples, "exhaustive": False,
-        "exhaustive_note": "the vector space of the model is enumerated completely in the thorough tier; values and random bytes are sampled",
+        "exhaustive_note": "the vector space of the model (header lists, format x compression requests, corruption classes) is "
+                           "enumerated completely; values and random bytes are sampled",
     }, ["TLC + spec/Dsd.tla as the oracle; the encoders themselves (encoding/json, fxamacker/cbor, vmihailenco/msgpack, ghodss/yaml, "
         "GenCode codecs) are exercised, not specified",
         "driver cmd/dsdx: canonical text of values (nil and empty slices/maps equal), tokenisation of the Content-Type the "
